@@ -29,13 +29,18 @@ import (
 	"bytes"
 	"context"
 	"fmt"
+	"go/ast"
+	"go/parser"
+	"go/token"
 	"math/rand"
 	"os"
 	"os/exec"
 	"path/filepath"
 	"regexp"
 	"sort"
+	"strconv"
 	"strings"
+	"unicode"
 
 	"github.com/inspirer/textmapper/compiler"
 	"github.com/inspirer/textmapper/gen"
@@ -628,6 +633,89 @@ func c17MarkerTM(r *rand.Rand, name string, k int, minimize, eventBased, optimiz
 	return sb.String()
 }
 
+// c17ReservedPool reads, from the tree under test, the names the generator itself treats specially: the `reserved`
+// set of gen/funcs.go (escape_reserved) and the identifiers the ast templates declare (types, functions, methods and
+// struct fields of go_ast_tree / go_ast_parse / go_ast / go_ast_factory), each in lower-first and Title spelling.
+func c17ReservedPool(repo string) (reservedWords, templateWords []string, problems []string) {
+	seen := map[string]bool{}
+	add := func(into *[]string, w string) {
+		if w == "" || !regexp.MustCompile(`^[A-Za-z_][A-Za-z0-9_]*$`).MatchString(w) {
+			return
+		}
+		r := []rune(w)
+		lower := string(unicode.ToLower(r[0])) + string(r[1:])
+		if !seen[lower] {
+			seen[lower] = true
+			*into = append(*into, lower)
+		}
+	}
+	// the ast templates first: a word that is both declared there and reserved counts as a template word
+	decl := regexp.MustCompile(`(?m)^(?:func (?:\([^)]*\) )?([A-Za-z_]\w*)\(|type ([A-Za-z_]\w*) |var ([A-Za-z_]\w*) |\t([a-zA-Z_]\w*) +[\[\]*A-Za-z_{][^\n(=:]*$)`)
+	for _, t := range []string{"go_ast_tree", "go_ast_parse", "go_ast", "go_ast_factory"} {
+		b, err := os.ReadFile(filepath.Join(repo, "gen", "templates", t+".go.tmpl"))
+		if err != nil {
+			problems = append(problems, "cannot read "+t+".go.tmpl")
+			continue
+		}
+		for _, m := range decl.FindAllStringSubmatch(string(b), -1) {
+			for _, w := range m[1:] {
+				add(&templateWords, w)
+			}
+		}
+	}
+	fset := token.NewFileSet()
+	if f, err := parser.ParseFile(fset, filepath.Join(repo, "gen", "funcs.go"), nil, parser.SkipObjectResolution); err == nil {
+		found := false
+		ast.Inspect(f, func(n ast.Node) bool {
+			vs, ok := n.(*ast.ValueSpec)
+			if !ok || len(vs.Names) != 1 || vs.Names[0].Name != "reserved" || len(vs.Values) != 1 {
+				return true
+			}
+			if call, ok := vs.Values[0].(*ast.CallExpr); ok {
+				for _, a := range call.Args {
+					if lit, ok := a.(*ast.BasicLit); ok && lit.Kind == token.STRING {
+						if w, err := strconv.Unquote(lit.Value); err == nil {
+							found = true
+							add(&reservedWords, w)
+						}
+					}
+				}
+			}
+			return false
+		})
+		if !found {
+			problems = append(problems, "gen/funcs.go: the `reserved` set was not found")
+		}
+	} else {
+		problems = append(problems, "gen/funcs.go does not parse: "+err.Error())
+	}
+	sort.Strings(reservedWords)
+	sort.Strings(templateWords)
+	return
+}
+
+// words of the .tm syntax itself (they cannot be used as plain identifiers in a grammar file)
+var c17TmKeywords = map[string]bool{"true": true, "false": true, "separator": true, "as": true, "import": true, "set": true,
+	"implements": true, "brackets": true, "inline": true, "prec": true, "shift": true, "returns": true, "input": true, "left": true,
+	"right": true, "nonassoc": true, "generate": true, "assert": true, "empty": true, "nonempty": true, "global": true, "explicit": true,
+	"lookahead": true, "param": true, "flag": true, "char": true, "no": true, "space": true, "void": true, "layout": true, "language": true,
+	"lalr": true, "lexer": true, "parser": true, "interface": true, "class": true, "extend": true, "expect": true, "inject": true}
+
+// c17FieldNamesTM: a typed-AST grammar (eventBased + eventFields + eventAST) whose FIELD names are `fields` (three of
+// them: a required field, an optional one and a list) and whose leaf node types are named `types` (two of them).
+func c17FieldNamesTM(name string, fields [3]string, types [2]string, genSelector bool) string {
+	var sb strings.Builder
+	fmt.Fprintf(&sb, "language %s(go);\n\nlang = %q\npackage = \"gp/%s\"\neventBased = true\neventFields = true\neventAST = true\n", name, name, name)
+	if genSelector {
+		sb.WriteString("genSelector = true\n")
+	}
+	sb.WriteString("\n:: lexer\n\nWhiteSpace: /[ \\t\\n]+/ (space)\n'a': /a/\n'b': /b/\n'c': /c/\n';': /;/\n\n:: parser\n\n%input Root;\n\n")
+	fmt.Fprintf(&sb, "Root -> Root :\n    %s=Leaf 'a' Mid ;\n\n", fields[0])
+	fmt.Fprintf(&sb, "Mid -> Mid :\n    %s=Other? ';' (%s+=Leaf)* ;\n\n", fields[1], fields[2])
+	fmt.Fprintf(&sb, "Leaf -> %s :\n    'b' ;\n\nOther -> %s :\n    'c' ;\n", types[0], types[1])
+	return sb.String()
+}
+
 // c17LexShapeTM: lexer shapes. bit 0: a (space) rule; bit 1: a rule with a code action; bit 2: typed token;
 // bit 3: class rule with keywords; bit 4: explicit invalid_token rule; bit 5: backtracking; bit 6: a parser on top;
 // bit 7: start conditions; bit 8: tokenLine off; bit 9: scanBytes.
@@ -1122,6 +1210,11 @@ var c17Classes = []c17Class{
 			return c17Tiny("w", "eventBased = true\n", c17TinyLexer,
 				"%input S, X no-eoi;\n\nS -> Root : (?= X) 'a' 'b' | (?= !X) 'a' 'a' ;\nX -> Xn : 'a' 'b' ;\n"), c17Feat{"eventBased": true, "lookahead": true, "multiInput": true, "noEoiInput": true}
 		}},
+	{Token: "[C17-field-shadows-child]", Expect: `too many arguments in call to n\.Child`,
+		What: "eventFields + eventAST with a field named `child` (or `children`): the accessor Child() is declared on the node struct and shadows the promoted (*Node).Child(selector) that every accessor body calls",
+		Witness: func() (string, c17Feat) {
+			return c17Tiny("w", "eventBased = true\neventFields = true\neventAST = true\n", c17TinyLexer, "%input S;\n\nS -> Root : child=T 'a' ;\nT -> Leaf : 'b' ;\n"), c17Feat{"eventBased": true, "eventFields": true, "eventAST": true}
+		}},
 	{Token: "[C17-typed-ref-after-instantiate]", Expect: `mismatched types interface\{\} and int|operator . not defined on .*interface`,
 		What: "a template flag anywhere in the grammar and a typed nonterminal that refers to itself in a semantic action: the reference loses its type ($left expands to stack[..].value without the type assertion)",
 		Witness: func() (string, c17Feat) {
@@ -1180,13 +1273,13 @@ func c17(c *Ctx) {
 	}
 	c.Rule = "probes: one witness grammar per known class of build failures (" + fmt.Sprint(len(c17Classes)) + " classes: guard-level ones listed in the Lean expectation table, type-level template defects, go vet complaints, symbol-name collisions); " +
 		"table widths: gen.bitsPerElement / gen.bits vs the Lean mirror on random arrays mixing small values with the extremes of int8/int16/int32 of both signs (judge: the chosen width must hold every element); " +
-		"families in every run: 12 width grammars (one rule of n keywords and a literal of n characters: parser states, rule length and lexer DFA states 126..131, optimizeTables on/off; thorough: 32768/32769 states) state markers x minimizeDFA (one marker at the same position of 3..7 alternatives with repeating tails and randomly ordered terminals, so that non-adjacent marker states merge; the states of every marker of every compiled grammar must be distinct, they are the keys of a generated map literal) and lexer shapes ((space) rule? x code action? in all four combinations, the other lexer dimensions - typed token, class rule, explicit invalid_token rule, backtracking, start conditions, tokenLine, scanBytes, with/without a parser - at random); " +
+		"families in every run: 12 width grammars (one rule of n keywords and a literal of n characters: parser states, rule length and lexer DFA states 126..131, optimizeTables on/off; thorough: 32768/32769 states) state markers x minimizeDFA (one marker at the same position of 3..7 alternatives with repeating tails and randomly ordered terminals, so that non-adjacent marker states merge; the states of every marker of every compiled grammar must be distinct, they are the keys of a generated map literal) typed-AST field names (a required, an optional and a list field per grammar, eventBased + eventFields + eventAST) drawn from the generator's OWN words, read from the tree under test: every identifier the ast templates declare (Node, Tree, Child, Next, offset, parent, firstChild, …) in every run, and the `reserved` set of gen/funcs.go (all of it in thorough runs, a sample in quick runs), lower-first or Title spelling, leaf node types named after the same words (names of a collision class only once its probe builds) and lexer shapes ((space) rule? x code action? in all four combinations, the other lexer dimensions - typed token, class rule, explicit invalid_token rule, backtracking, start conditions, tokenLine, scanBytes, with/without a parser - at random); " +
 		"sweep: skeleton grammars (statement/expression language; lexer features: class rule + keywords, typed token, unicode classes beyond U+0800, backtracking, start conditions, space/comment tokens, invalid_token, lexer code; " +
 		"parser features: error recovery, recoveryScope marker, %inject, lookahead predicates, lalr(2), typed nonterminals with semantic actions and aliases, mid-rule actions, several inputs, no-eoi inputs, named sets, %interface categories, state markers, lists with separators, optionals, inner arrows, precedence, template flags) " +
 		"and random CFGs (gram.go RandGram) with rule arrows, under feature/option vectors chosen greedily for pairwise coverage of " + fmt.Sprint(len(c17Bools)) + " Boolean dimensions (eventBased/eventFields/eventAST/genSelector/fileNode/tokenStream/fixWhitespace/cancellable(+Fetch)/recursiveLookaheads/optimizeTables/defaultReduce/minimizeDFA/writeBison/debugParser/tokenLine/tokenLineOffset/tokenColumn/scanBytes/nonBacktracking/skipByteOrderMark/caseInsensitive/nodePrefix/extraTypes and the features above), normalised by the dependencies the compiler enforces; " +
 		"stress stream: Go keywords, predeclared identifiers and generated-looking names as token, node-type, set and marker names (names of a collision class only once its probe builds). " +
 		"Each grammar: compiler.Compile + gen.Generate in a child process (a crash is a finding), all packages in one scratch module, go build ./... and go vet ./...; the trusted implications of the Lean table are evaluated on every compiled grammar; non-trivial = a package that was generated and compiled by the Go compiler; distinct by grammar text. " +
-		"A class whose probe still fails is reported once (stable token) and avoided by the random stream (see `classes_present`): eventBased forced on for grammars with a parser while [C17-ruletype-nodetype] is present, tokenStream off without eventBased ([C17-stream-without-types]), genSelector on with eventAST ([C17-ast-without-selector]), tokenLine kept with tokenStream ([C17-stream-tokenline]), cancellableFetch off with tokenStream + lookahead ([C17-stream-cancellablefetch]), nodePrefix off ([C17-nodeprefix]), template flags off with typed nonterminals ([C17-typed-ref-after-instantiate]), typed nonterminals off with tokenStream ([C17-stream-value]), the lookahead target never a user no-eoi input ([C17-lookahead-user-input]), the two known go vet messages filtered; flags (`-> T/Flag`) are never generated (they need user-supplied constants); semantic-action reference errors reported by gen.Generate are counted, not reported (C16)."
+		"A class whose probe still fails is reported once (stable token) and avoided by the random stream (see `classes_present`): eventBased forced on for grammars with a parser while [C17-ruletype-nodetype] is present, tokenStream off without eventBased ([C17-stream-without-types]), genSelector on with eventAST ([C17-ast-without-selector]), tokenLine kept with tokenStream ([C17-stream-tokenline]), cancellableFetch off with tokenStream + lookahead ([C17-stream-cancellablefetch]), nodePrefix off ([C17-nodeprefix]), template flags off with typed nonterminals ([C17-typed-ref-after-instantiate]), typed nonterminals off with tokenStream ([C17-stream-value]), the lookahead target never a user no-eoi input ([C17-lookahead-user-input]), no field named child/children ([C17-field-shadows-child]), the two known go vet messages filtered; flags (`-> T/Flag`) are never generated (they need user-supplied constants); semantic-action reference errors reported by gen.Generate are counted, not reported (C16)."
 
 	c17LeanTie(c, repo)
 
@@ -1306,6 +1399,74 @@ func c17(c *Ctx) {
 		minimize := i%3 != 2
 		addFam("marker", c17MarkerTM(c.Rng, "w", k, minimize, evb, c.Rng.Intn(3) == 0), c17Feat{"marker": true, "minimizeDFA": minimize, "eventBased": evb})
 	}
+	// (4) typed-AST field names (and leaf node type names) drawn from the generator's OWN reserved words: the
+	// `reserved` set of gen/funcs.go and the identifiers the ast templates declare, in lower and Title spelling.
+	// thorough: every word is a field name at least once; quick: a sample
+	resWords, tmplWords, poolProblems := c17ReservedPool(repo)
+	for _, pr := range poolProblems {
+		c.Notes = append(c.Notes, "reserved-name pool: "+pr)
+	}
+	c.Extra["reserved_pool"] = fmt.Sprintf("%d words declared by the ast templates, %d more in gen/funcs.go `reserved`", len(tmplWords), len(resWords))
+	{
+		childClass := avoid["[C17-field-shadows-child]"]
+		usable := func(ws []string) (out []string) {
+			for _, w := range ws {
+				if c17TmKeywords[w] || childClass && (w == "child" || w == "children") {
+					continue
+				}
+				out = append(out, w)
+			}
+			return
+		}
+		// every word the ast templates declare in every run; of the other reserved words all (thorough) or a sample
+		words := usable(tmplWords)
+		rest := usable(resWords)
+		c.Rng.Shuffle(len(rest), func(i, j int) { rest[i], rest[j] = rest[j], rest[i] })
+		if c.Tier != "thorough" {
+			rest = rest[:min(len(rest), 6)]
+		}
+		words = append(words, rest...)
+		c.Rng.Shuffle(len(words), func(i, j int) { words[i], words[j] = words[j], words[i] })
+		danger := map[string]bool{}
+		for tok, names := range c17Danger {
+			if avoid[tok] {
+				for _, n := range names {
+					danger[n] = true
+				}
+			}
+		}
+		var typeNames []string
+		for _, w := range append(usable(tmplWords), usable(resWords)...) {
+			r := []rune(w)
+			t := string(unicode.ToUpper(r[0])) + string(r[1:])
+			if !danger[t] && t != "Root" && t != "Mid" {
+				typeNames = append(typeNames, t)
+			}
+		}
+		for i := 0; i < len(words); i += 3 {
+			fs := [3]string{words[i], "second", "third"}
+			if i+1 < len(words) {
+				fs[1] = words[i+1]
+			}
+			if i+2 < len(words) {
+				fs[2] = words[i+2]
+			}
+			if c.Rng.Intn(3) == 0 { // the Title spelling gives the same accessor
+				k := c.Rng.Intn(3)
+				r := []rune(fs[k])
+				fs[k] = string(unicode.ToUpper(r[0])) + string(r[1:])
+			}
+			ts := [2]string{"Leaf", "Other"}
+			if len(typeNames) >= 2 && c.Rng.Intn(2) == 0 {
+				a, b := c.Rng.Intn(len(typeNames)), c.Rng.Intn(len(typeNames))
+				if a != b {
+					ts = [2]string{typeNames[a], typeNames[b]}
+				}
+			}
+			addFam("fieldnames", c17FieldNamesTM("w", fs, ts, c.Rng.Intn(2) == 0), c17Feat{"eventBased": true, "eventFields": true, "eventAST": true})
+			c.Count("fieldnames-words")
+		}
+	}
 	// (2) lexer shapes: (space rule?) × (code action?) always, the other lexer dimensions at random
 	for i := 0; i < c.N(10, 40); i++ {
 		m := i & 3 // bits 0, 1: all four combinations, repeatedly
@@ -1348,6 +1509,11 @@ func c17(c *Ctx) {
 		default:
 			c17Record(c, cs)
 			c17Report(c, cs, "")
+		}
+	}
+	if d := os.Getenv("C17_DUMP"); d != "" {
+		for _, cs := range fb.cases {
+			os.WriteFile(filepath.Join(d, fmt.Sprintf("%s-%s-%s.tm", cs.Name, cs.Kind, cs.Status)), []byte("# "+cs.Feat.String()+"\n# "+cs.Detail+"\n# "+cs.Build+"\n"+cs.Text), 0o644)
 		}
 	}
 	fb.close()
@@ -1569,6 +1735,7 @@ var c17Signatures = []struct{ token, re string }{
 	{"[C17-nodeprefix]", `undefined: Nd[A-Z]`},
 	{"[C17-stream-cancellablefetch]", `not enough arguments in call to stream\.next`},
 	{"[C17-stream-value]", `stream\.Value undefined`},
+	{"[C17-field-shadows-child]", `too many arguments in call to n\.Child`},
 	{"[C17-lookahead-user-input]", `undefined: At[A-Z]`},
 	{"[C17-ast-without-selector]", `/selector is not in std|no required module provides package gp/[a-z0-9]+/selector`},
 }
